@@ -134,9 +134,10 @@ type CmdSpec struct {
 // ProgSpec is a complete program definition plus the environment it is built in.
 type ProgSpec struct {
 	Root         CmdSpec           `json:"root"`
-	Mode         int               `json:"mode"`          // 0 Normal, 1 Bundling, 2 SingleDash
-	UnknownMode  int               `json:"unknown"`       // 0 Fail, 1 Warn, 2 Pass
-	RequireOrder bool              `json:"require_order"` // on the root, before commands
+	Mode         int               `json:"mode"`                // 0 Normal, 1 Bundling, 2 SingleDash
+	ModeLate     bool              `json:"mode_late,omitempty"` // SetMode is called after all commands have been declared
+	UnknownMode  int               `json:"unknown"`             // 0 Fail, 1 Warn, 2 Pass
+	RequireOrder bool              `json:"require_order"`       // on the root, before commands
 	Help         string            `json:"help,omitempty"`
 	HelpAliases  []string          `json:"help_aliases,omitempty"`
 	Env          map[string]string `json:"env,omitempty"`
